@@ -216,12 +216,16 @@ class Target:
             return ["cdict %d %d %d %d %d %d" % (d, c[1], c[2], c[3], c[4], c[5])]
         return ["cdict2 %d %d %d %s %d" % (d, c[1], c[2], " ".join(str(x) for x in c[3]), c[4])]
 
-    def lines(self, c, fid, sa=0, da=0, hexout=0, caps=None, inmode=0, cap=0, d=0, override=None, copy_to=-1):
+    def lines(self, c, fid, sa=0, da=0, hexout=0, caps=None, inmode=0, cap=0, d=0, override=None, copy_to=-1, fresh=False):
+        """fresh=True: the context has just been created, the call sequence starts with the parameters
+        (no ZSTD_CCtx_reset): a used context gets the same calls after a reset of session and parameters."""
         L = []
         o, n = self.src[0], self.src[1]
         head = "F %d %d %d %d %d %d %d " % (c, fid, o, n, sa, da, hexout)
         if self.sticky():
-            if self.reset == "r3":
+            if fresh:
+                pass
+            elif self.reset == "r3":
                 L.append("reset %d 3" % c)
             else:
                 L.append("reset %d 1" % c)
@@ -531,7 +535,9 @@ def build_group(rng, gid, t, inputs, dicts, want_hex=False, trace=False):
                 kinds += k2
             kinds.append("copyCCtx")
         fid = fids.next()
-        L.extend(t.lines(c, fid, sa=sa, da=da, hexout=hexout, caps=caps, inmode=inmode, cap=cap, d=0, copy_to=copy_to))
+        is_fresh = not hist and not contig and not copy
+        L.extend(t.lines(c, fid, sa=sa, da=da, hexout=hexout, caps=caps, inmode=inmode, cap=cap, d=0, copy_to=copy_to,
+                         fresh=is_fresh and rng.random() < 0.7))
         g.variants.append((fid, label, cls, dict(ctx=ctxkind, sa=sa, da=da, caps=caps, inmode=inmode, cap=cap, hist=kinds)))
         g.kinds.update(kinds)
         g.kinds.add(ctxkind)
@@ -633,7 +639,7 @@ def build_mt_group(rng, gid, bigs, inputs, dicts):
             caps = rng.choice([[1 << 30], [rng.randint(1, 5000)], [rng.randint(1, 300000) for _ in range(3)], [1, 100000]])
         fid = fids.next()
         L.extend(t.lines(c, fid, sa=rng.choice([0, rng.randint(1, 63)]), da=rng.choice([0, rng.randint(1, 63)]),
-                         caps=caps, inmode=0, d=0, override={"nbWorkers": w}))
+                         caps=caps, inmode=0, d=0, override={"nbWorkers": w}, fresh=not hist and rng.random() < 0.5))
         L.append("jitter 0")
         L.append("mtfail 0")
         g.variants.append((fid, label, "eq", dict(ctx=kind, w=w, jitter=jit, mtfail=fail, caps=caps, hist=kinds)))
@@ -650,6 +656,7 @@ def parse_output(out):
     jobs = []
     errs = []
     cur = []
+    last_fid = None
     for l in out.split("\n"):
         if not l:
             continue
@@ -662,14 +669,20 @@ def parse_output(out):
                 frames[fid] = dict(err=None, size=int(t[3]), hash=t[4], rt=int(t[5]), nerr=int(t[6]), sc=int(t[7]),
                                    hex=t[8] if len(t) > 8 else None, jobs=cur)
             cur = []
+            last_fid = fid
         elif t[0] == "D":
             d = dict(ctx=int(t[1]), why=t[2])
             for kv in t[3:]:
                 k, v = kv.split("=")
                 d[k] = int(v)
             dumps.append(d)
+            if last_fid is not None and d["why"] == "frame":
+                frames[last_fid]["dump"] = d
+                last_fid = None
         elif t[0] == "J":
             cur.append(tuple(int(x) for x in t[1:]))
+        elif t[0] == "A":
+            cur = []        # jobs of an abandoned frame
         elif t[0] == "E":
             errs.append(l)
     return frames, dumps, errs
@@ -753,4 +766,563 @@ def same_frame(f, r):
 
 
 def strip(f):
-    return {k: v for k, v in f.items() if k not in ("hex", "jobs", "dumps")}
+    return {k: v for k, v in f.items() if k not in ("hex", "jobs", "dumps", "dump")}
+
+
+# --------------------------------------------------------------------------------------------
+# lock-step of the extracted models against the real structs
+
+class Model:
+    def __init__(self):
+        self.exe = core.build_extracted("c07model", "Extract/Extract_C07.v", "c07_driver.ml")
+
+    def run(self, cases):
+        """cases: list of (opcode, [ints]) -> list of [ints]"""
+        if not cases:
+            return []
+        inp = "\n".join("%d %s" % (op, " ".join(str(int(a)) for a in args)) for op, args in cases) + "\n"
+        chunks = max(1, min(core.NCPU, len(cases) // 50))
+        lines = inp.split("\n")[:-1]
+        parts = [lines[i::chunks] for i in range(chunks)]
+
+        def one(ls):
+            p = subprocess.run([self.exe], input=("\n".join(ls) + "\n").encode(), stdout=subprocess.PIPE, stderr=subprocess.PIPE, timeout=900)
+            if p.returncode != 0:
+                raise RuntimeError("extracted model crashed: " + p.stderr.decode()[-500:])
+            return [[int(x) for x in l.split()] for l in p.stdout.decode().split("\n")[:len(ls)]]
+        with ThreadPoolExecutor(chunks) as ex:
+            res = list(ex.map(one, parts))
+        out = [None] * len(lines)
+        for k, r in enumerate(res):
+            for j, v in enumerate(r):
+                out[k + j * chunks] = v
+        return out
+
+
+ALIGN = 64
+
+
+def lockstep_cases(g, dumps, frames):
+    """(cases, checks): model cases for this group and how to compare their answers.
+    A 'first' (streaming call with no input yet) or 'begin' (ZSTD_compressBegin_advanced) dump shows the context right
+    after ZSTD_resetCCtx_internal (+ dictionary loading); the dump before it on the same context is the history."""
+    cases, checks, direct = [], [], []
+    last = {}
+    for d in dumps:
+        c = d["ctx"]
+        prev = last.get(c)
+        last[c] = d
+        if d["init"] and d.get("tb", 0) != 0:
+            direct.append(("tb", d))           # invariant I of the reset theorem, observed on the real tables
+        if d["why"] not in ("first0", "begin") or not d["init"] or d.get("nbw", 0) != 0:
+            continue
+        if prev is None:
+            continue
+        nodict = d["lde"] == 0 and d["dms"] == 0 and d["idx"] == d["dl"] and d["idx"] == d["ll"] and d["stage"] == 1
+        # a dictionary (prefix / loaded / CDict) has been inserted after the reset: the window has moved on; only the
+        # salt and the workspace are predicted then
+        resized = (not d["static"]) and d["osd"] == 0
+        pinit = prev["init"]
+        a1 = [pinit, prev.get("idx", 0), prev.get("ll", 0), prev.get("dl", 0), prev.get("ntu", 0), prev.get("lde", 0),
+              prev.get("dms", 0), prev.get("lls", 0), prev.get("salt", 0), prev.get("ent", 0), 0, 1 if resized else 0, d["row"]]
+        cases.append((1, a1))
+        checks.append(("reset", d, prev, nodict))
+        if nodict and d.get("reach", 0) != 0:
+            direct.append(("reach", d))        # conclusion of the reset theorem, observed on the real tables
+        # workspace pointers
+        t1 = 4 << d["hl"]
+        t2 = (4 << d["cl"]) if d["chain"] else 0
+        t3 = (4 << d["h3"]) if d["h3"] else 0
+        tag = (1 << d["hl"]) if d["row"] else 0
+        taga = (tag + ALIGN - 1) // ALIGN * ALIGN
+        end_abs = d["ws"] + d["wsz"]
+        ias = end_abs - end_abs % ALIGN
+        top = ias - taga - (d["ws"] + d["as"])
+        if top < 0:
+            continue
+        # doReset is an input of the workspace sequence: take the model's own prediction (filled in later)
+        a2 = [prev["ws"], prev["wsz"], prev["oe"], prev["te"], prev["tve"], prev["as"], prev["ios"], prev["ph"],
+              1 if resized else 0, d["ws"], d["wsz"], 0, None, t1, t2, t3, tag, top]
+        cases.append((2, a2))
+        checks.append(("cwksp", d, prev, len(cases) - 2))
+    return cases, checks, direct
+
+
+def run_lockstep(ctx, model, per_group, report):
+    """per_group: list of (g, dumps, frames)"""
+    allcases, index = [], []
+    for g, dumps, frames in per_group:
+        cases, checks, direct = lockstep_cases(g, dumps, frames)
+        for kind, d in direct:
+            report("observer", g, dict(kind=kind, dump=d,
+                                       what="table entry >= index of nextSrc (invariant I)" if kind == "tb" else
+                                       "table entry >= lowLimit right after a reset (reachable stale entry)"))
+        for cs, ch in zip(cases, checks):
+            allcases.append(cs)
+            index.append((g, ch))
+    # pass 1: reset predictions (opcode 1); pass 2: workspace with the predicted index-reset flag
+    r1 = model.run([c for c in allcases if c[0] == 1])
+    it = iter(r1)
+    pred1 = {}
+    for i, c in enumerate(allcases):
+        if c[0] == 1:
+            pred1[i] = next(it)
+    second = []
+    for i, c in enumerate(allcases):
+        if c[0] == 2:
+            c[1][12] = pred1[i - 1][0]
+            second.append(c)
+    r2 = model.run(second)
+    it2 = iter(r2)
+    n_ok = 0
+    for i, (c, (g, ch)) in enumerate(zip(allcases, index)):
+        if c[0] == 1:
+            p = pred1[i]
+            kind, d, prev, nodict = ch
+            obs_reset = 1 if (nodict and d["idx"] == 2 and (prev.get("idx", 0) != 2 or not prev["init"])) else None
+            exp = dict(doReset=p[0], idx=p[1], ll=p[2], dl=p[3], ntu=p[4], lde=p[5], dms=p[6], lls=p[7], salt=p[8])
+            bad = {}
+            if nodict:
+                for k in ("idx", "ll", "dl", "ntu", "lde", "dms", "lls"):
+                    if d[k] != exp[k]:
+                        bad[k] = (exp[k], d[k])
+            else:
+                if d["lls"] != 0:
+                    bad["lls"] = (0, d["lls"])
+            if d["salt"] != exp["salt"]:
+                bad["salt"] = (exp["salt"], d["salt"])
+            ctx.count(("lockstep-reset", exp["doReset"], nodict, d["row"], prev["init"], d["static"], not bad), nontrivial=bool(prev["init"]))
+            ctx.cov["traces_validated_against_impl"] += 1
+            if bad:
+                report("lockstep", g, dict(model="ResetModel.reset", mismatch=bad, before=prev, after=d, predicted=exp))
+            else:
+                n_ok += 1
+        else:
+            p = next(it2)
+            kind, d, prev, _ = ch
+            obs = [d["oe"], d["te"], d["tve"], d["as"], d["ios"], d["ph"], d["af"]]
+            ctx.count(("lockstep-cwksp", c[1][8], c[1][12], d["row"], d["tve"] == d["te"], d["tve"] < d["te"], obs == p), nontrivial=True)
+            ctx.cov["traces_validated_against_impl"] += 1
+            if obs != p:
+                report("lockstep", g, dict(model="CwkspClean.reset_ops", predicted=p, observed=obs, before=prev, after=d, args=c[1]))
+            else:
+                n_ok += 1
+    return n_ok
+
+
+def mt_checks(ctx, model, g, frames, dumps, report):
+    """MT groups: job lists of all variants against each other and against the model's never-blocking schedule"""
+    t = g.t
+    pieces = t.pieces if t.api == "stream" else [(t.src[1], 2)]
+    vs = [(fid, label, info, frames.get(fid)) for fid, label, cls, info in g.variants]
+    vs = [v for v in vs if v[3] is not None and v[3]["err"] is None]
+    if not vs:
+        return
+    # target section size from the dump of each variant's context
+    mtd = [f["dump"] for fid, label, info, f in vs if f.get("dump") and f["dump"].get("mt")]
+    cases = []
+    for d in mtd:
+        js = t.params.get("jobSize", 0)
+        if js:
+            js = max(js, 512 << 10)
+        cases.append((4, [js, d["wl"], d["cl"], d["strat"], d["ldm"], t.params.get("overlapLog", 0)]))
+    rs = model.run(cases)
+    tss = None
+    for d, r in zip(mtd, rs):
+        ctx.cov["traces_validated_against_impl"] += 1
+        ctx.count(("mt-target", d["nbw"], d["ldm"], d["strat"], r == [d["tss"], d["tps"]]), nontrivial=True)
+        if r != [d["tss"], d["tps"]]:
+            report("lockstep", g, dict(model="MtPartition.targetSectionSize", predicted=r, observed=[d["tss"], d["tps"]], dump=d))
+        tss = d["tss"]
+        tps = d["tps"]
+    ref = vs[0][3]
+    refjobs = [(j[1], j[3], j[4]) for j in ref["jobs"]]
+    ideal = None
+    if tss and not t.params.get("rsyncable"):
+        flat = []
+        for n, dr in pieces:
+            flat += [n, dr]
+        r = model.run([(5, [tss, tps] + flat)])[0]
+        ideal = [tuple(r[i:i + 4]) for i in range(0, len(r) - 3, 4)]
+        ideal_posted = [(s, f, l) for s, p, f, l in ideal if not (s == 0 and not f)]   # the empty last job is not posted
+    for fid, label, info, f in vs:
+        jobs = [(j[1], j[3], j[4]) for j in f["jobs"]]
+        sizes = [j[0] for j in jobs if j[0] > 0]
+        ctx.count(("mt-jobs", info.get("w"), len(jobs), info.get("mtfail", 0) > 0, info.get("jitter", 0) > 0), nontrivial=len(jobs) > 1)
+        if ideal is not None:
+            ctx.cov["traces_validated_against_impl"] += 1
+            if sizes != [s for s, p, fi, l in ideal if s > 0]:
+                report("lockstep", g, dict(model="MtPartition.run_ops (job sizes)", predicted=ideal, observed=f["jobs"], label=label, info=info))
+                continue
+            # prefix sizes of the jobs after the first
+            obs_pref = [j[2] for j in f["jobs"]][1:]
+            exp_pref = [p for s, p, fi, l in ideal if not (s == 0 and not fi)][1:len(obs_pref) + 1]
+            if obs_pref != exp_pref[:len(obs_pref)]:
+                report("lockstep", g, dict(model="MtPartition (prefix sizes)", predicted=ideal, observed=f["jobs"], label=label))
+        if [j[0] for j in jobs if j[0] > 0] != [j[0] for j in refjobs if j[0] > 0]:
+            report("differ", g, dict(what="job boundaries depend on the execution", label=label, info=info, ref=ref["jobs"], got=f["jobs"]))
+        elif jobs != refjobs and same_frame(f, ref):
+            pass
+    return
+
+
+def judge_mt_group(g, res, report, known):
+    """job-list aware comparison: bytes must agree whenever the (size,last) lists agree"""
+    rc, out, err, script = res
+    frames, dumps, errs = parse_output(out)
+    stats = dict(compared=0, equal=0, trivial=0, skipped=0, frames=len(frames), shortcut_diff=0, lastflag_diff=0)
+    if rc != 0:
+        report("crash", g, dict(rc=rc, stderr=err[-600:], last=out[-300:]))
+        return stats, frames, dumps
+    for fid, f in frames.items():
+        if f["err"] is None and f["rt"] != 1:
+            report("rt", g, dict(fid=fid, frame=strip(f)))
+    classes = {}
+    ref = None
+    for fid, label, cls, info in g.variants:
+        f = frames.get(fid)
+        if f is None:
+            report("crash", g, dict(rc=rc, missing_fid=fid, label=label))
+            continue
+        key = None if f["err"] is not None else tuple((j[1], j[4]) for j in f["jobs"])
+        if ref is None:
+            ref = (f, key)
+            classes[key] = f
+            continue
+        stats["compared"] += 1
+        if f["err"] != ref[0]["err"] or f["nerr"] != ref[0]["nerr"]:
+            report("differ", g, dict(label=label, info=info, ref=strip(ref[0]), got=strip(f)))
+            continue
+        if key == ref[1]:
+            if same_frame(f, ref[0]):
+                stats["equal"] += 1
+            else:
+                report("differ", g, dict(label=label, info=info, ref=strip(ref[0]), got=strip(f), jobs=f["jobs"]))
+            continue
+        # job lists differ: sizes must still agree; a difference limited to the last flag of the final data job is
+        # the documented finding
+        s1 = [j[0] for j in key if j[0] > 0]
+        s0 = [j[0] for j in ref[1] if j[0] > 0]
+        if s1 != s0:
+            report("differ", g, dict(what="job boundaries depend on the execution", label=label, info=info, ref=ref[0]["jobs"], got=f["jobs"]))
+            continue
+        base = classes.setdefault(key, f)
+        if base is not f and not same_frame(f, base):
+            report("differ", g, dict(label=label, info=info, ref=strip(base), got=strip(f), jobs=f["jobs"]))
+            continue
+        stats["equal"] += 1
+        stats["lastflag_diff"] += 1
+        known(KEY_MTLAST, g, dict(label=label, info=info, ref_jobs=ref[0]["jobs"], got_jobs=f["jobs"], ref=strip(ref[0]), got=strip(f)))
+    return stats, frames, dumps
+
+
+KEY_MTLAST = "mt-jobtable-full-last-job"
+
+
+# --------------------------------------------------------------------------------------------
+# tie (3): ZSTD_rescaleFreqs and the salted hash, real code vs model
+
+def opt_and_hash_tie(ctx, model, rng, report_simple, scratch, inputs, blob):
+    exe = core.build_harness("c07_opt", ["c07_opt.c"], extra_flags=["-w"])
+    # a dictionary trained on the run's own text, so that its entropy tables respect the asserted cost bounds
+    tpath = os.path.join(scratch, "train.bin")
+    base = [i for i in inputs if i[2] == "text300k"][0]
+    with open(tpath, "wb") as f:
+        f.write(bytes(blob.b[base[0]:base[0] + base[1]]))
+    lines = ["consts", "train " + tpath]
+    cases = []
+    n = 60 if ctx.quick else 400
+
+    def rtab(k, mode):
+        if mode == 0:
+            return [0] * k
+        if mode == 1:
+            return [rng.randint(0, 3) for _ in range(k)]
+        if mode == 2:
+            return [rng.randint(0, 100000) for _ in range(k)]
+        return [rng.choice([0, 1, 7, 4095, 4096, 1 << 20, (1 << 32) - 1 >> rng.randint(8, 20)]) for _ in range(k)]
+    for i in range(n):
+        cl = rng.randint(0, 1)
+        lvl = rng.choice([0, 2])
+        hasd = 1 if rng.random() < 0.3 else 0
+        lls = 0 if rng.random() < 0.6 else rng.choice([1, 40, 5000, 1 << 20])
+        src = rng.choice(inputs)
+        ns = min(src[1], rng.choice([0, 1, 8, 9, 100, 5000]))
+        sb = list(blob.b[src[0]:src[0] + ns])
+        mode = rng.randint(0, 3)
+        tabs = rtab(256, mode) + rtab(36, mode) + rtab(53, mode) + rtab(32, mode)
+        cases.append((cl, lvl, hasd, lls, sb, tabs))
+        lines.append("R %d %d %d %d %d %s %s" % (cl, lvl, hasd, lls, len(sb), " ".join(map(str, sb)), " ".join(map(str, tabs))))
+    hcases = []
+    for i in range(200 if ctx.quick else 2000):
+        mls = rng.choice([4, 5, 6, 7, 8])
+        hb = rng.randint(8, 32)
+        salt = rng.choice([0, 1, rng.getrandbits(64), rng.getrandbits(32), (1 << 64) - 1])
+        b = [rng.randrange(256) for _ in range(8)]
+        hcases.append((mls, hb, salt, b))
+        lines.append("H %d %d %d %s" % (mls, hb, salt, " ".join(map(str, b))))
+    p = subprocess.run([exe], input=("\n".join(lines) + "\n").encode(), stdout=subprocess.PIPE, stderr=subprocess.PIPE, timeout=600)
+    if p.returncode != 0:
+        report_simple("crash", dict(harness="c07_opt", rc=p.returncode, stderr=p.stderr.decode()[-500:]))
+        return
+    out = p.stdout.decode().split("\n")
+    k = [int(x) for x in out[0].split()[1:]]
+    # the constants the model hard-codes because they are macros local to zstd_opt.c
+    if k != [255, 35, 52, 31, 8, 8]:
+        report_simple("lockstep", dict(model="OptStats constants (MaxLit MaxLL MaxML MaxOff PREDEF_THRESHOLD BITCOST_ACCURACY)",
+                                       predicted=[255, 35, 52, 31, 8, 8], observed=k))
+    c = out[1].split()
+    dict_ok = c[1] == "1"
+    costs = [int(x) for x in c[2:]] if dict_ok else []
+    mcases = []
+    robs = []
+    li = 2
+    for cl, lvl, hasd, lls, sb, tabs in cases:
+        o = [int(x) for x in out[li].split()[1:]]
+        li += 1
+        hd = 1 if (hasd and dict_ok) else 0
+        mcases.append((6, [cl, lvl, hd, lls, len(sb)] + sb + tabs + (costs if hd else [])))
+        robs.append((cl, lvl, hd, lls, len(sb), o))
+    hobs = []
+    for mls, hb, salt, b in hcases:
+        t = out[li].split()
+        li += 1
+        w, mixed, h = int(t[1]), int(t[2]), int(t[3])
+        mcases.append((7, [w, hb, mixed, salt if w == 64 else salt & 0xFFFFFFFF]))
+        hobs.append((mls, hb, salt, w, mixed, h))
+    res = model.run(mcases)
+    for (cl, lvl, hd, lls, ns, o), r in zip(robs, res[:len(robs)]):
+        ctx.cov["traces_validated_against_impl"] += 1
+        exp, got = list(r), list(o)
+        if not cl:      # literal statistics are neither written nor read
+            exp = exp[256:377] + exp[378:381] + exp[382:]
+            got = got[256:377] + got[378:381] + got[382:]
+        ok = exp == got
+        ctx.count(("opt", cl, lvl, hd, lls == 0, ns <= 8, ok), nontrivial=True)
+        if not ok:
+            bad = [i for i in range(min(len(exp), len(got))) if exp[i] != got[i]][:8]
+            report_simple("lockstep", dict(model="OptStats.rescaleFreqs", args=dict(cl=cl, lvl=lvl, dict=hd, litLengthSum=lls, nsrc=ns),
+                                           first_bad_fields=bad, predicted=[exp[i] for i in bad], observed=[got[i] for i in bad]))
+    for (mls, hb, salt, w, mixed, h), r in zip(hobs, res[len(robs):]):
+        ctx.cov["traces_validated_against_impl"] += 1
+        row, tag, row0, tag0, srow, stag = r
+        ok = (row << 8 | tag) == h and row == row0 ^ srow and tag == tag0 ^ stag
+        ctx.count(("hash", mls, hb >= 24, salt == 0, ok), nontrivial=salt != 0)
+        if not ok:
+            report_simple("lockstep", dict(model="RowSalt.hashS", mls=mls, hBits=hb, salt=salt, mixed=mixed, observed=h, predicted=(row << 8 | tag)))
+
+
+# --------------------------------------------------------------------------------------------
+# the deterministic corpus cases of the two documented findings
+
+def finding_groups(rng, gid0, inputs, bigs, blob):
+    gs = []
+    t300 = [i for i in inputs if i[2] == "text300k"][0]
+    # (1) e_end shortcut: one call, all input, ZSTD_e_end; capacity 1000 vs unlimited
+    t = Target("stream", t300, params={"level": 3}, pieces=[(t300[1], 2)], bias="finding")
+    g = Group(gid0, t)
+    g.lines += ["arena 700000", "trace 0", "ctx 0 heapz 0", "ctx 1 heapz 0"]
+    g.lines += t.lines(0, 1001, caps=[63], fresh=True)
+    g.lines += t.lines(1, 1002, caps=[1 << 30], fresh=True)
+    g.variants = [(1001, "ref", "eq", dict(ctx="heapz", caps=[63], hist=[])), (1002, "caps-big1", "big", dict(ctx="heapz", caps=[1 << 30], hist=[]))]
+    g.finding = KEY_SHORTCUT
+    gs.append(g)
+    return gs
+
+
+def mt_finding_group(gid, bigs, blob_add):
+    """five e_continue calls of exactly one section, then e_end without input; nbWorkers=1 (4-entry jobs table),
+    output capacity 1 byte per call vs unlimited"""
+    sec = 512 << 10
+    src = blob_add
+    t = Target("stream", src, params={"level": 1, "jobSize": sec, "nbWorkers": 1}, pieces=[(sec, 0)] * 5 + [(0, 2)], bias="finding")
+    g = Group(gid, t)
+    g.lines += ["arena %d" % (5 * sec + 200000), "trace 1", "ctx 0 heapz 0", "ctx 1 heapz 0"]
+    g.lines += t.lines(0, 1001, caps=[1 << 30], fresh=True)
+    g.lines += t.lines(1, 1002, caps=[1], fresh=True)
+    g.variants = [(1001, "ref", "eq", dict(ctx="heapz", w=1, caps=[1 << 30], hist=["mt"])),
+                  (1002, "cap1", "eq", dict(ctx="heapz", w=1, caps=[1], hist=["mt"]))]
+    g.mt = True
+    g.finding = KEY_MTLAST
+    return g
+
+
+# --------------------------------------------------------------------------------------------
+
+def run(ctx):
+    t_start = time.time()
+    quick = ctx.quick
+    r = ctx.prove()
+    exe = core.build_harness("c07_det", ["c07_det.c"], extra_flags=["-w"])
+    model = Model()
+    rng = random.Random(ctx.seed)
+    blob, inputs, dicts, bigs = build_pool(rng, quick)
+    # exact multiple of the minimal job size for the MT finding
+    mtsrc = blob.add(codec.gen_input(random.Random(ctx.seed + 77), "text", 5 * (512 << 10))) + ("text",)
+    blob_path = os.path.join(ctx.scratch, "blob.bin")
+    with open(blob_path, "wb") as f:
+        f.write(bytes(blob.b))
+
+    only = None
+    if ctx.replay_file:
+        ro = json.load(open(ctx.replay_file))
+        rep = ro.get("replay", {})
+        only = rep.get("gid")
+        if ro.get("seed") != ctx.seed or ro.get("tier") != ctx.tier:
+            log("replay recorded with seed=%s tier=%s: re-run with VERIF_SEED=%s --tier %s for the same case" % (
+                ro.get("seed"), ro.get("tier"), ro.get("seed"), ro.get("tier")))
+
+    n_groups = 110 if quick else 900
+    n_mt = 8 if quick else 60
+    groups = []
+    for gid in range(n_groups):
+        grng = random.Random(ctx.seed * 1000003 + gid)
+        t = gen_target(grng, inputs, dicts)
+        g = build_group(grng, gid, t, inputs, dicts, want_hex=(gid % 25 == 3 and t.src[1] <= 70000), trace=True)
+        g.mt = False
+        groups.append(g)
+    for k in range(n_mt):
+        gid = n_groups + k
+        grng = random.Random(ctx.seed * 1000003 + gid)
+        g = build_mt_group(grng, gid, bigs, inputs, dicts)
+        g.mt = True
+        groups.append(g)
+    fg = finding_groups(rng, n_groups + n_mt, inputs, bigs, blob)
+    for g in fg:
+        g.mt = False
+    groups += fg
+    groups.append(mt_finding_group(n_groups + n_mt + len(fg), bigs, mtsrc))
+    if only is not None:
+        groups = [g for g in groups if g.gid == only]
+
+    viol = []
+
+    def report(kind, g, detail, key=None):
+        viol.append((kind, g, detail, key))
+
+    known_hits = {}
+
+    def known(key, g, detail):
+        known_hits.setdefault(key, (g, detail))
+
+    t0 = time.time()
+    results = run_groups(exe, blob_path, groups, ctx.seed)
+    log("ran %d groups in %.1fs" % (len(groups), time.time() - t0))
+    per_group = []
+    totals = {}
+    hexes = []
+    hist_kinds = {}
+    for g, res in results:
+        if g.mt:
+            st, frames, dumps = judge_mt_group(g, res, report, known)
+            try:
+                mt_checks(ctx, model, g, frames, dumps, report)
+            except Exception as e:
+                report("crash", g, dict(what="mt lock-step failed", error=repr(e)))
+        else:
+            st, frames, dumps = judge_group(g, res, report)
+            per_group.append((g, dumps, frames))
+            if st.get("shortcut_diff") and getattr(g, "shortcut_witness", None):
+                known(KEY_SHORTCUT, g, g.shortcut_witness)
+        for k, v in st.items():
+            totals[k] = totals.get(k, 0) + v
+        ref = None
+        for fid, label, cls, info in g.variants:
+            f = frames.get(fid)
+            if f is None:
+                continue
+            if label == "ref":
+                ref = f
+                if f.get("hex"):
+                    hexes.append((g, f))
+                continue
+            sig = (g.t.api, g.t.strategy_class(), g.t.bias, bool(g.t.dct), bool(g.t.cdict), info.get("ctx"), label.rstrip("0123456789"),
+                   tuple(sorted(set(info.get("hist", [])))), f["err"] is None)
+            ctx.count(sig, nontrivial=f["err"] is None and (g.t.src[1] > 64))
+            for hk in info.get("hist", []):
+                hist_kinds[hk] = hist_kinds.get(hk, 0) + 1
+        if len(ctx.cov["samples"]) < 6 and g.gid % 17 == 0:
+            ctx.sample(dict(target=g.t.describe(), variants=[(l, i) for _, l, _, i in g.variants][:4],
+                            result="all outputs byte-identical to the fresh-context output" if not any(v[1] is g for v in viol) else "see violations"))
+    try:
+        n_ok = run_lockstep(ctx, model, per_group, report)
+        log("lock-step: %d model predictions matched" % n_ok)
+    except Exception as e:
+        viol.append(("crash", None, dict(what="lock-step failed to run", error=repr(e)), None))
+
+    def report_simple(kind, detail):
+        viol.append((kind, None, detail, None))
+    if only is None:
+        try:
+            opt_and_hash_tie(ctx, model, rng, report_simple, ctx.scratch, inputs, blob)
+        except Exception as e:
+            viol.append(("crash", None, dict(what="opt/hash tie failed to run", error=repr(e)), None))
+        # a sample of the frames through the Coq reference decoder R
+        try:
+            cd = codec.Codec(ctx)
+            cases = []
+            for g, f in hexes[:6 if quick else 30]:
+                dct = None
+                if g.t.dct:
+                    dct = bytes(blob.b[g.t.dct[1]:g.t.dct[1] + g.t.dct[2]])
+                elif g.t.cdict:
+                    dct = bytes(blob.b[g.t.cdict[1]:g.t.cdict[1] + g.t.cdict[2]])
+                fl = "rawdict" if (dct is not None and dct[:4] != bytes.fromhex("37a430ec")) else None
+                cases.append(("g%d" % g.gid, fl, dct, bytes.fromhex(f["hex"])))
+            if cases:
+                rr = cd.model(cases)
+                for (cid, fl, dct, fr), (g, f) in zip(cases, hexes):
+                    m = rr.get(cid)
+                    src = bytes(blob.b[g.t.src[0]:g.t.src[0] + g.t.src[1]])
+                    ctx.count(("R", g.t.api, m is not None and m[0] == "OK"), nontrivial=True)
+                    if m is None or m[0] != "OK" or m[1] != src:
+                        report("rt", g, dict(what="the Coq reference decoder R does not return the input", result=m[:2] if m else None))
+        except Exception as e:
+            log("R sample skipped: %r" % (e,))
+
+    # ---- verdicts
+    def search(broken):
+        found = []
+        for kind, g, detail, key in viol:
+            if kind in ("differ", "crash", "rt", "observer") and g is not None:
+                found.append((dict(kind=kind, gid=g.gid, target=g.t.describe(), detail=detail, script=g.lines[:400]),
+                              "paired executions disagree while a proof obligation is broken: %s" % kind))
+        return found[:3]
+    ctx.proof_verdict(search)
+
+    nrep = 0
+    for kind, g, detail, key in viol:
+        nrep += 1
+        if nrep > 12:
+            break
+        concrete = kind in ("differ", "crash", "rt", "observer")
+        what = {"differ": "same calls, different bytes: the output depends on the execution context",
+                "crash": "the harness crashed / could not run",
+                "rt": "a produced frame does not decode to its input",
+                "observer": "stale table entries are reachable / not bounded on the real context",
+                "lockstep": "the real code disagrees with the model the theorems are about"}[kind]
+        rep = dict(kind=kind, gid=g.gid if g is not None else None, target=g.t.describe() if g is not None else None,
+                   detail=detail, script=(g.lines[:600] if g is not None else None))
+        ctx.violation(rep, what="%s (%s)" % (what, json.dumps(detail, default=str)[:300]), no_input=not concrete, key=key)
+    for key, (g, detail) in known_hits.items():
+        what = {KEY_SHORTCUT: "ZSTD_compressStream2(ZSTD_e_end) output bytes depend on the output capacity (direct ZSTD_compressEnd shortcut vs buffered path)",
+                KEY_MTLAST: "ZSTDMT: a full jobs table at a section boundary followed by e_end makes the pending section the last job (3-byte difference)"}[key]
+        ctx.violation(dict(kind="finding", key=key, gid=g.gid, target=g.t.describe(), detail=detail, script=g.lines[:100]), what=what, key=key)
+
+    ctx.cov["rule"] = (
+        "groups = one target call sequence (api x parameters x dictionary x input x pieces, seeded) executed under 5-10 execution "
+        "contexts (fresh zeroed / garbage heap / static memory, histories of other frames, aborted frames + resets, copyCCtx, "
+        "130-frame bursts, src/dst offsets 0..63 and contiguous placement, output capacities, nbWorkers 1/2/4 x lock jitter x refused "
+        "posts); one evaluation = one byte-compare of a variant against the fresh reference, or one model prediction compared with "
+        "the real struct / real function. A case is non-trivial when it produced a frame (no error) from more than 64 input bytes, "
+        "or when the model step started from a used context; distinct = distinct (api, strategy, bias, dictionary, memory kind, "
+        "variant, history kinds) signature.")
+    ctx.notes["pairs"] = totals
+    ctx.notes["history_kinds"] = hist_kinds
+    ctx.notes["apis"] = {}
+    for g in groups:
+        ctx.notes["apis"][g.t.api] = ctx.notes["apis"].get(g.t.api, 0) + 1
+    ctx.notes["known_findings_seen"] = sorted(known_hits.keys())
+    ctx.notes["labels"] = ("theorems: coq/Props/Properties_C07.v; everything counted here is differential testing / model validation; "
+                           "the finder contract (never use an index < lowLimit) is covered by the paired executions only")
+    log("done in %.1fs: %s" % (time.time() - t_start, totals))
